@@ -1,11 +1,15 @@
 package main
 
 import (
+	"bytes"
+	"encoding/binary"
 	"fmt"
 	"io"
 	"math/rand"
 	"reflect"
 	"strings"
+
+	kmip "github.com/smira/go-kmip"
 
 	"kvharness/internal/drv"
 	"kvharness/internal/gen"
@@ -63,7 +67,61 @@ func buildDecInputs(g *gen.G, nValid, mutPer int, kinds []string) []decInput {
 		}
 		_ = i
 	}
-	return inputs
+	return append(inputs, skipFamily()...)
+}
+
+// skipFamily: items that only a field annotated `skip` can claim never come out of Encode, so they are built by hand: a third
+// child of a Message Extension (its Vendor Extension), of any type, with its length exact, overstated (by 8, to 17 / 24 /
+// 2^31 / 2^32-7 / 2^32-1), with the enclosing lengths repaired or not, and with the input cut inside it
+func skipFamily() []decInput {
+	var out []decInput
+	bases := []struct {
+		typ string
+		val interface{}
+	}{
+		{"Request", &kmip.Request{Header: kmip.RequestHeader{Version: kmip.ProtocolVersion{Major: 1, Minor: 4}, BatchCount: 1},
+			BatchItems: []kmip.RequestBatchItem{{Operation: kmip.OPERATION_GET, RequestPayload: kmip.GetRequest{UniqueIdentifier: "id"},
+				MessageExtension: kmip.MessageExtension{VendorIdentification: "acme", CriticalityIndicator: true}}}}},
+		{"MessageExtension", &kmip.MessageExtension{VendorIdentification: "acme", CriticalityIndicator: true}},
+	}
+	for _, b := range bases {
+		var eb bytes.Buffer
+		if err := kmip.NewEncoder(&eb).Encode(b.val); err != nil {
+			continue
+		}
+		data := eb.Bytes()
+		var ext *mut.Node
+		for _, n := range mut.All(mut.Parse(data)) {
+			if n.Tag == 0x420051 {
+				ext = n
+			}
+		}
+		if ext == nil {
+			continue
+		}
+		for _, typ := range []byte{1, 2, 7, 8, 0x0b} {
+			for _, body := range [][]byte{{}, {1, 2, 3, 4}, {1, 2, 3, 4, 5, 6, 7, 8, 9, 10, 11, 12, 13, 14, 15, 16}} {
+				pad := (8 - len(body)%8) % 8
+				for _, decl := range []uint32{uint32(len(body)), uint32(len(body)) + 8, 17, 24, 1 << 31, 1<<32 - 7, 1<<32 - 1} {
+					item := append([]byte{0x42, 0x00, 0x7d, typ, byte(decl >> 24), byte(decl >> 16), byte(decl >> 8), byte(decl)}, append(append([]byte(nil), body...), make([]byte, pad)...)...)
+					for _, repair := range []bool{true, false} {
+						m := append(append(append([]byte(nil), data[:ext.End]...), item...), data[ext.End:]...)
+						if repair {
+							for p := ext; p != nil; p = p.Parent {
+								l := binary.BigEndian.Uint32(m[p.Off+4:])
+								binary.BigEndian.PutUint32(m[p.Off+4:], l+uint32(len(item)))
+							}
+						}
+						out = append(out, decInput{typ: b.typ, data: m, origin: "skip-item"})
+						if cut := ext.End + 8 + len(body)/2; cut < len(m) {
+							out = append(out, decInput{typ: b.typ, data: m[:cut], origin: "skip-item-cut"})
+						}
+					}
+				}
+			}
+		}
+	}
+	return out
 }
 
 var deliveryModes = []string{"mem", "onebyte", "chunks", "dataeof", "dataeof-full"}
@@ -98,6 +156,13 @@ func decodeCorrespondence(r *Result, d *drv.Driver, g *gen.G, inputs []decInput,
 		mode, fin, finName, scanner := pickDelivery(g.R)
 		extras[i] = extra{mode, finName, scanner, realDecode(t, in.data, mode, fin, scanner, g.R)}
 		lines = append(lines, fmt.Sprintf("dec %s %s %s", in.typ, finName, hx(in.data)))
+		if outs[i].class == "timeout" || extras[i].o.class == "timeout" {
+			// a Decode that does not return keeps its goroutine spinning: report it and stop giving the code more input
+			r.find(Finding{Kind: "violation", What: "Decode did not return (looping)", Input: map[string]string{"type": in.typ, "bytes": hx(in.data), "delivery": mode + "/" + finName, "origin": in.origin}, Expect: "ok|eof|err", Actual: "still running after 5 s"})
+			r.Notes = append(r.Notes, "run cut short after a Decode call that did not return")
+			inputs = inputs[:i+1]
+			break
+		}
 	}
 	replies, err := d.AskAll(lines)
 	if err != nil {
